@@ -24,7 +24,7 @@ def gen_cfg(rng, small=False):
         if rng.random() < 0.5:
             cfg["coverage"] = rng.choice(["1/2", "3/4", "1/4"])
         elif rng.random() < 0.4:
-            cfg["lengths"] = [[u, v, str(rng.choice([1, 2, 3, 5]))] for (u, v) in edges if rng.random() < 0.8]
+            cfg["lengths"] = [[u, v, str(rng.choice([0, 1, 2, 3, 5]))] for (u, v) in edges if rng.random() < 0.8]
             cfg["coverage_length"] = rng.choice(["1", "1/2", "3/4"])
     if rng.random() < 0.3:
         cfg["ignore"] = [list(e) for e in edges if rng.random() < 0.3]
